@@ -66,6 +66,8 @@ DATA_DEPENDENT = [
     (r"^regex::(bytes::)?Regex(Builder)?::(new|build)$", "regex compilation fails on an invalid pattern"),
     (r"DateTime::<.*>::parse_from_|NaiveDateTime::parse_from_str$|NaiveDate::parse_from_str$", "timestamp parsing fails on any text outside the format"),
     (r"^serde_json::(de::)?from_(str|slice|value)$", "JSON decoding fails on malformed input"),
+    (r"protobuf::descriptor::get_message_descriptor(_from_bytes)?$|^std::fs::(read|read_to_string)$|^std::fs::File::open$",
+     "fails when the named file is missing, unreadable or not what was expected: the path is written by the user"),
     (r"^ordered_float::NotNan::<T>::new$", "fails for NaN: the text \"nan\" parses as a float (str::parse, nom's double), and inf * 0 or inf - inf is NaN"),
     (r"^chrono::FixedOffset::(east|west)_opt$", "None for an offset of a day or more"),
     (r"^chrono::Naive(Date|Time)::from_(ymd|hms|hms_milli|hms_micro|hms_nano|yo|num_days_from_ce)_opt$", "None for an out-of-range component"),
@@ -74,6 +76,20 @@ DATA_DEPENDENT_OK = {
     # (function, callee tail) -> reason the argument is not run-time content
     ("stdlib::parse_apache_log::parse_apache_log", "from_utf8"):
         "the argument is the `format` bytes after they were matched against the literals b\"common\" / b\"combined\" / b\"error\" (any other value hits the arm before)",
+    ("datadog::filter::regex::word_regex", "new"):
+        "the pattern is regex::escape(input) with the escaped `*` replaced by `.*` between fixed `\\b` anchors: always a valid regex",
+    ("datadog::filter::regex::wildcard_regex", "new"):
+        "the pattern is regex::escape(input) with the escaped `*` replaced by `.*` between `^` and `$`: always a valid regex",
+    ("<stdlib::from_unix_timestamp::FromUnixTimestamp as compiler::function::Function>::compile", "from_str"):
+        "the literal was accepted by optional_enum against Unit::all_value() (R04l keeps that an exact equality)",
+    ("<stdlib::to_unix_timestamp::ToUnixTimestamp as compiler::function::Function>::compile", "from_str"):
+        "the literal was accepted by optional_enum against Unit::all_value() (R04l)",
+    ("<stdlib::parse_key_value::ParseKeyValue as compiler::function::Function>::compile", "from_str"):
+        "the literal was accepted by optional_enum against Whitespace::all_value() (R04l)",
+    ("<stdlib::parse_user_agent::ParseUserAgent as compiler::function::Function>::compile", "from_str"):
+        "the literal was accepted by optional_enum against Mode::all_value() (R04l)",
+    ("<stdlib::shannon_entropy::ShannonEntropy as compiler::function::Function>::compile", "from_str"):
+        "the literal was accepted by optional_enum against the segmentation variants (R04l)",
     ("stdlib::random_float::random_float", "new"):
         "the argument is the result of random_range over a non-empty finite range (R04m), which is a finite float",
     ("parser::lex::Lexer::<'input>::numeric_literal_or_identifier", "new"):
@@ -89,12 +105,16 @@ def rule_r04j(chk, M):
     from cfgq import op_local
     facts = chk.facts
     rid = "R04j"
-    chk.rule(rid, "no unwrap/expect directly on the result of a content-dependent fallible library call in resolve-reachable code (stdlib and the parsing/grok/value modules it reaches)", floor=60)
+    chk.rule(rid, "no unwrap/expect directly on the result of a content-dependent fallible library call in resolve- or compile-reachable code (stdlib and the parsing/grok/value modules it reaches)", floor=100)
     pats = [(re.compile(p), why) for p, why in DATA_DEPENDENT]
     seen_all = set()
     for f in M.functions.values():
         roots, seen, par = sr.resolve_reach(facts, M, f)
         seen_all |= set(seen)
+    # compile() of every stdlib function and what it reaches: "compiling any source text never panics"
+    croots = [f["compile"] for f in M.functions.values() if isinstance(f.get("compile"), str)]
+    cseen, _cext, _cpar = facts.reach(croots)
+    seen_all |= set(cseen)
     done = set()
     for n in sorted(seen_all):
         if n.startswith("cli::") or n.startswith("<cli::"):
